@@ -22,7 +22,8 @@ from vlib.runner import hyp_run
 PROPERTY = 'C10'
 RULE = ('state in {OPENSENT, OPENCONFIRM, ESTABLISHED} x good* bad good*; bad = UPDATE/OPEN/NOTIFICATION/ROUTE-REFRESH/'
         'KEEPALIVE frame whose body is a mutated reference encoding, a mutated unit-test vector (as body or wrapped as an '
-        'attribute / MP_REACH value) or random bytes. Non-trivial = the bad body is >= 1 octet and at least one good '
+        'attribute / MP_REACH value) or random bytes; sessions in 4- or 2-octet-AS mode, negotiated hold time in '
+        '{180, 90, 3, 0}, as the first or as the 2nd/3rd session of the agent. Non-trivial = the bad body is >= 1 octet and at least one good '
         'message follows; distinct by (state, bytes).')
 ASSUMPTIONS = ['good messages are marked UPDATEs / KEEPALIVEs from refcodec; the control run delivers the same sequence '
                'without the bad message',
@@ -45,7 +46,9 @@ def run_case(case, with_bad=True):
     bad = rc.frame(case['type'], bytes.fromhex(case['body']))
     as4 = case.get('as4', True)
     caps = [rc.cap_mp(1, 1), rc.cap(2), rc.cap(128)]
-    sim, c = ss.new_established(upto='ESTABLISHED' if case.get('prior') else state, hold_time=180, idle_hold_time=5, as4=as4, caps=caps)
+    hold = case.get('hold', 180)      # the hold time the peer proposes (the agent is configured with 180): 0 = no timers
+    sim, c = ss.new_established(upto='ESTABLISHED' if case.get('prior') else state, hold_time=180, idle_hold_time=5, as4=as4, caps=caps,
+                                hold=hold)
     r = sim.reactor
     out = []
     # earlier sessions of the same agent, each ended in a different way, before the session under test
@@ -58,8 +61,10 @@ def run_case(case, with_bad=True):
                 r.peer_send(live[-1], b'\x00' * 19)
             elif how == 'cease':
                 r.peer_send(live[-1], rc.notification(6, 4))
+            elif how == 'silence' and hold:
+                r.advance(hold + 1)
             elif how == 'silence':
-                r.advance(181)
+                r.peer_close(live[-1])      # silence never ends a session without a hold timer
             r.settle(fire_due=True)
         # next session up to the state wanted (the last prior leads into the session under test)
         guard = 0
@@ -70,7 +75,7 @@ def run_case(case, with_bad=True):
         if not r.attempts():
             out.append(('prior-session:no-reconnect:%s' % how, 'no new attempt after a session ended by %s' % how))
             return out, [], sim
-        c = ss.establish(sim, caps=caps, as4=as4, upto='ESTABLISHED')
+        c = ss.establish(sim, caps=caps, as4=as4, upto='ESTABLISHED', hold=hold)
     if case.get('prior') and state != 'ESTABLISHED':
         # bring the LAST session only up to the wanted state: end the established one and stop earlier
         live = ss.live_connectors(sim)
@@ -82,7 +87,7 @@ def run_case(case, with_bad=True):
             r.advance_to(r.next_time())
             r.settle(fire_due=True)
             guard += 1
-        c = ss.establish(sim, caps=caps, as4=as4, upto=state)
+        c = ss.establish(sim, caps=caps, as4=as4, upto=state, hold=hold)
     if c is None or sim.state != state:
         out.append(('harness:state', 'could not reach %s (%s)' % (state, sim.state)))
         return out, [], sim
@@ -253,11 +258,12 @@ def bad_message(draw):
 
 
 case_strategy = st.builds(
-    lambda state, pre, post, bad, as4, prior: dict(state=state, pre=pre, post=post, type=bad['type'], body=bad['body'], kind=bad['kind'],
-                                                   as4=as4, prior=prior),
+    lambda state, pre, post, bad, as4, prior, hold: dict(state=state, pre=pre, post=post, type=bad['type'], body=bad['body'],
+                                                         kind=bad['kind'], as4=as4, prior=prior, hold=hold),
     st.sampled_from(['ESTABLISHED', 'ESTABLISHED', 'ESTABLISHED', 'OPENCONFIRM', 'OPENSENT']),
     st.integers(0, 2), st.integers(1, 3), bad_message(), st.booleans(),
-    st.one_of(st.just([]), st.just([]), st.lists(st.sampled_from(['close', 'marker', 'cease', 'silence']), min_size=1, max_size=2)))
+    st.one_of(st.just([]), st.just([]), st.lists(st.sampled_from(['close', 'marker', 'cease', 'silence']), min_size=1, max_size=2)),
+    st.sampled_from([180, 180, 0, 0, 3, 90]))
 
 
 def shards(tier):
@@ -278,6 +284,7 @@ def fuzz_case(data):
     b0 = data[0] if data else 0
     b1 = data[1] if len(data) > 1 else 0
     return {'state': STATES[b0 % 4], 'as4': bool(b0 & 4), 'pre': (b0 >> 3) & 1, 'post': 1 + ((b0 >> 4) & 1),
+            'hold': 0 if b0 & 0x20 else 180,
             'type': TYPES[b1 % len(TYPES)], 'body': data[2:4000].hex(), 'kind': 'atheris'}
 
 
@@ -294,7 +301,7 @@ def run_shard(spec, seed, col, tier):
     def body(case):
         res, cls = check_case(case)
         col.case(case, len(case['body']) >= 2 and case['post'] >= 1,
-                 labels=['state:' + case['state'], 'kind:' + case['kind'], 'as4:%s' % case.get('as4', True), 'prior-sessions:%d' % len(case.get('prior') or []), 'type:%d' % case['type'], 'outcome:' + cls])
+                 labels=['state:' + case['state'], 'kind:' + case['kind'], 'as4:%s' % case.get('as4', True), 'prior-sessions:%d' % len(case.get('prior') or []), 'hold:%s' % case.get('hold', 180), 'type:%d' % case['type'], 'outcome:' + cls])
         for sig, detail in res:
             col.fail(sig, case, detail)
     hyp_run(col, case_strategy, body, seed, spec['examples'])
